@@ -23,7 +23,8 @@ KEY = {1: "reject/bracketed-anytrait", 2: "accept/outside-documented-language", 
        7: "spelling/acceptance-differs", 8: "spelling/graphs-differ", 9: "spelling/python-eq-false",
        10: "spelling/hash-differs", 11: "exception/not-ValueError", 12: "equality/different-patterns-compare-equal",
        13: "cache/answer-changes-between-calls", 14: "entry-points/parse-and-compile_str-disagree",
-       15: "removal/registered-by-one-spelling-not-removable-by-the-other"}
+       15: "removal/registered-by-one-spelling-not-removable-by-the-other",
+       16: "hooks/handler-fires-for-other-traits-than-documented"}
 _W = re.compile(r"\w")
 
 
@@ -66,6 +67,8 @@ def expr_term(e):
 
 
 def to_term(case, ob):
+    if case["kind"] == "hook":
+        return C("Hook", text_term(case["s"]), bool(ob["registered"]), [int(x) for x in ob["fired"]] or Raw("(@nil Z)"))
     if case["kind"] == "expr":
         return C("ExprC", expr_term(case["e"]), outcome_term(ob))
     if case["kind"] == "single":
@@ -252,7 +255,7 @@ def corpus():
     diff = [("a.b", "a.c"), ("a.b", "a:b"), ("a.[b,c]", "a.[b,d]"), ("a.items", "a.item"), ("a.+m", "a.+n"), ("a.*", "a.b"),
             ("a.b.c", "a.b.d"), ("a,b", "a,c"), ("x.[a.b,c]", "x.[a:b,c]")]
     cs += [dict(kind="pair", same=False, s1=a, s2=b) for a, b in diff]
-    return cs + expr_corpus()
+    return cs + expr_corpus() + hook_corpus()
 
 
 def enum_trees(depth):
@@ -315,6 +318,16 @@ def expr_corpus():
     return [dict(kind="expr", e=e, style=st) for e in es for st in (0, 1, 2)]
 
 
+def hook_corpus():
+    """End-to-end: which traits of the probe objects a text hooks (metadata values True, False, 0, "", (), None, absent)."""
+    els = ["+tag", "+other", "+nothing", "*", "t_true", "t_false", "t_none", "t_absent", "[+tag,t_absent]", "[+tag,+other]",
+           "[t_zero,*]", "items"]
+    texts = list(els) + ["child"] + ["child%s%s" % (c, e) for c in ".:" for e in els if e != "[t_zero,*]"]
+    texts += ["+tag,+other", "t_true,child:+tag", "+tag,child.+tag", " + tag ", "child : + tag", "child.[+tag , t_none]",
+              "child:[t_absent,+other]", "*,child:*", "t_other,+other"]
+    return [dict(kind="hook", s=t) for t in texts]
+
+
 def gen_cases(rnd, ctx, n):
     cs = []
     for _ in range(n):
@@ -369,6 +382,9 @@ def gen_cases(rnd, ctx, n):
 def describe(case, ob, code):
     which = 2 if 20 < code < 40 else 1
     clause = code - 20 if 20 < code < 40 else code
+    if case["kind"] == "hook":
+        return "text %r registered on the probe objects: %s (fired for %r; 16*level + trait index, traits t_true t_false " \
+               "t_zero t_empty t_tuple t_none t_absent t_other child)" % (case["s"], KEY.get(clause, clause), ob.get("fired"))
     if case["kind"] == "expr":
         return "expression %s built through the API (style %d): %s (compile_expr: %s)" % (
             json.dumps(case["e"]), case.get("style", 0), KEY.get(clause, clause), json.dumps(ob)[:300])
@@ -424,7 +440,10 @@ def run_cases(ctx, cases, tag, relation):
                  dict(relation=relation, error=err[-2000:]), no_input=True)
         return -1
     for c, o in zip(cases, obs):
-        if c["kind"] == "expr":
+        if c["kind"] == "hook":
+            ctx.case_seen("h:" + c["s"], bool(o["registered"]))
+            ctx.count("hook:" + ("registered" if o["registered"] else "not-registered:" + o.get("exc", "")))
+        elif c["kind"] == "expr":
             ctx.case_seen("e:%d:%s" % (c.get("style", 0), json.dumps(c["e"])), True)
             ctx.count("outcome-expr:" + o["o"])
         elif c["kind"] == "single":
